@@ -13,6 +13,7 @@
   * `modrm_*` — the number of SIB / displacement bytes for every Mod / RM / SIB-base / address-size
     combination (SDM tables 2-1, 2-2, 2-3), `modrmTail_cases` (the rows are exhaustive) and
     `modrm_len` / `modrm_len_67` (what the decoder consumes for a ModRM opcode is that number).
+  * `iz_len_66`, `iz_len_66_rexw` — operand-size dependent immediates: 66 selects 2 bytes, REX.W wins.
   * `rel8_decode`, `rel32_decode`, `rel16_decode_m32`, `jcc_rel32_decode` — a relative jump / call
     whose displacement field encodes `d` is decoded with displacement exactly `d` and the right length.
 
@@ -245,6 +246,40 @@ theorem modrm_len_67 (m : Mode) (op x : Nat) (rest : List Nat)
   simp only [this, if_true, Option.map_some]
   congr 1; omega
 
+/-! ## immediates that follow the operand size (`Iz`): 66 selects 16 bits, REX.W wins over 66 -/
+
+/-- an `Iz` opcode (e.g. `05 ADD eAX,Iz`, `68 PUSH Iz`, `A9 TEST`) with operand-size prefix: 2-byte immediate -/
+theorem iz_len_66 (m : Mode) (op : Nat) (i t : List Nat)
+    (hop : plainOp m { opsz := true } op = some (opI .iz)) (hi : i.length = 2) :
+    x86len m (0x66 :: op :: (i ++ t)) = some 4 := by
+  have hp := plainOp_notPfx m _ op _ hop
+  have hz : izBytes m { opsz := true } = 2 := by cases m <;> rfl
+  have hb : (bytes 2).run (i ++ t) = some (i, 2) := by
+    rw [run_bytes 2 (i ++ t) (by simp [hi]), List.take_left' hi]
+  unfold x86len x86dec
+  rw [insn_eq, Rd.run_bind, prefixes_66 m 14 {} _, prefixes_stop m 13 _ op _ hp]
+  simp only [List.drop_succ_cons, List.drop_zero, afterPfx_plain m _ op _ hop]
+  simp only [rdOp, opI, rdImm, hz, hb, Bool.false_eq_true, if_false, Rd.run_bind, Rd.run]
+  rfl
+
+/-- 64-bit mode, 66 followed by a REX prefix with W set: the immediate is 4 bytes (REX.W takes
+    precedence over 66), the instruction 7 — amoco read 2 here (proposed fix C07-x64-rexw-overrides-66-imm) -/
+theorem iz_len_66_rexw (rex op : Nat) (i t : List Nat) (hlo : 0x48 ≤ rex) (hhi : rex ≤ 0x4f)
+    (hop : plainOp .m64 { opsz := true, rex := some rex } op = some (opI .iz)) (hi : i.length = 4) :
+    x86len .m64 (0x66 :: rex :: op :: (i ++ t)) = some 7 := by
+  have hp := plainOp_notPfx .m64 _ op _ hop
+  have hw : Pfx.rexW { opsz := true, rex := some rex } = true := by
+    simp only [Pfx.rexW, beq_iff_eq]; omega
+  have hz : izBytes .m64 { opsz := true, rex := some rex } = 4 := by simp [izBytes, hw]
+  have hb : (bytes 4).run (i ++ t) = some (i, 4) := by
+    rw [run_bytes 4 (i ++ t) (by simp [hi]), List.take_left' hi]
+  unfold x86len x86dec
+  rw [insn_eq, Rd.run_bind, prefixes_66 .m64 14 {} _, prefixes_rex 13 _ rex _ (by omega) hhi,
+    prefixes_stop .m64 12 _ op _ hp]
+  simp only [List.drop_succ_cons, List.drop_zero, afterPfx_plain .m64 _ op _ hop]
+  simp only [rdOp, opI, rdImm, hz, hb, Bool.false_eq_true, if_false, Rd.run_bind, Rd.run]
+  rfl
+
 /-! ## relative jumps and calls: size and value of the displacement -/
 
 /-- the `k` displacement bytes that encode `d` (two's complement, little-endian) -/
@@ -340,6 +375,13 @@ example : x86dec .m64 (0xeb :: (encRel 1 (-2) ++ [0x90])) = some (2, some (-2)) 
 -- ModRM rows
 example : modrmTail false 0x04 0x25 = 5 := modrm32_sib_nobase 0x04 0x25 (by decide) (by decide) (by decide)
 example : modrmTail true 0x06 0 = 2 := modrm16_disp16 0x06 0 (by decide) (by decide)
+-- operand-size dependent immediates; the two inputs on which amoco's x64 decoder was wrong
+example : plainOp .m64 { opsz := true, rex := some 0x48 } 0x05 = some (opI .iz) := by decide
+example : x86len .m64 [0x66, 0x48, 0x05, 1, 2, 3, 4, 0x90] = some 7 :=
+  iz_len_66_rexw 0x48 0x05 [1, 2, 3, 4] [0x90] (by decide) (by decide) (by decide) rfl
+example : x86len .m32 [0x66, 0x05, 1, 2, 0x90] = some 4 := iz_len_66 .m32 0x05 [1, 2] [0x90] (by decide) rfl
+example : x86len .m64 [0x67, 0x8b, 0x04, 0x25, 1, 2, 3, 4] = some 8 :=
+  modrm_len_67 .m64 0x8b 0x04 [0x25, 1, 2, 3, 4] (by decide) (by decide)
 -- what the model does not cover is `none`, e.g. VEX and a 66-prefixed near call in 64-bit mode
 example : x86len .m64 [0xc5, 0xf8, 0x77] = none := by decide
 example : x86len .m64 [0x66, 0xe8, 0, 0, 0, 0] = none := by decide
